@@ -109,17 +109,46 @@ impl AssertSpec {
     }
 }
 
+/// A sequence assertion on a running-sum column j >= 1 of the auxiliary segment: at the steps
+/// first + i * stride (i < n / stride) the column holds r_j * (sum of the source main column
+/// over the rows before that step); the partial sums travel in the public inputs.
+#[derive(Clone, Debug, PartialEq, Eq)]
+pub struct AuxAssert {
+    pub col: usize,
+    pub first: usize,
+    pub stride: usize,
+}
+
+impl AuxAssert {
+    pub fn steps(&self, n: usize) -> Vec<usize> {
+        (0..n / self.stride).map(|i| self.first + i * self.stride).collect()
+    }
+}
+
 #[derive(Clone, Debug, PartialEq, Eq)]
 pub struct AuxShape {
     /// number of auxiliary columns, Lagrange column (if any) included and last
     pub width: usize,
     pub num_rands: usize,
     pub lagrange: bool,
+    /// sequence assertions on running-sum columns (at most one per column)
+    pub asserts: Vec<AuxAssert>,
 }
 
 impl AuxShape {
     pub fn plain_cols(&self) -> usize {
         self.width - self.lagrange as usize
+    }
+    /// columns whose step-0 single assertion is replaced by a sequence assertion that starts at 0
+    pub fn single_at_zero(&self, j: usize) -> bool {
+        !self.asserts.iter().any(|a| a.col == j && a.first == 0)
+    }
+    pub fn num_assertions(&self) -> usize {
+        (0..self.plain_cols().max(1)).filter(|j| self.single_at_zero(*j)).count() + self.asserts.len()
+    }
+    /// is the cell (col, step) named by an assertion?
+    pub fn asserted(&self, col: usize, step: usize, n: usize) -> bool {
+        (step == 0 && col < self.plain_cols()) || self.asserts.iter().any(|a| a.col == col && a.steps(n).contains(&step))
     }
 }
 
@@ -205,6 +234,38 @@ pub struct SimInputs<B: StarkField> {
     pub shape: Shape,
     /// asserted values, one vector per main assertion
     pub values: Vec<Vec<B>>,
+    /// one vector per auxiliary sequence assertion: the partial sums of its source main column
+    /// before each asserted step
+    pub aux_sums: Vec<Vec<B>>,
+}
+
+impl<B: StarkField> SimInputs<B> {
+    /// the statement that `rows` satisfies for `shape`
+    pub fn from_trace(shape: &Shape, rows: &[Vec<B>]) -> Self {
+        SimInputs { shape: shape.clone(), values: read_assertion_values(shape, rows), aux_sums: read_aux_sums(shape, rows) }
+    }
+}
+
+/// partial sums of the source main column of every auxiliary sequence assertion
+pub fn read_aux_sums<B: StarkField>(shape: &Shape, rows: &[Vec<B>]) -> Vec<Vec<B>> {
+    let n = shape.len();
+    let w = shape.width;
+    match &shape.aux {
+        None => vec![],
+        Some(aux) => aux
+            .asserts
+            .iter()
+            .map(|a| {
+                let mut prefix = Vec::with_capacity(n + 1);
+                let mut acc = B::ZERO;
+                for row in rows.iter().take(n) {
+                    prefix.push(acc);
+                    acc += row[a.col % w];
+                }
+                a.steps(n).iter().map(|s| prefix[*s]).collect()
+            })
+            .collect(),
+    }
 }
 
 impl<B: StarkField> ToElements<B> for SimInputs<B> {
@@ -268,6 +329,12 @@ impl<B: StarkField> ToElements<B> for SimInputs<B> {
                 num(a.width);
                 num(a.num_rands);
                 num(a.lagrange as usize);
+                num(a.asserts.len());
+                for x in &a.asserts {
+                    num(x.col);
+                    num(x.first);
+                    num(x.stride);
+                }
             },
         }
         num(s.assertions.len());
@@ -282,7 +349,7 @@ impl<B: StarkField> ToElements<B> for SimInputs<B> {
             num(a.stride);
             num(a.count);
         }
-        for v in &self.values {
+        for v in self.values.iter().chain(self.aux_sums.iter()) {
             out.push(felt::<B>(v.len() as u64));
             out.extend_from_slice(v);
         }
@@ -365,7 +432,7 @@ impl<B: SimField> Air for SimAir<B> {
         } else {
             vec![]
         };
-        let num_aux_assertions = if multi { shape.aux.as_ref().map(|a| a.plain_cols()).unwrap_or(1).max(1) } else { 0 };
+        let num_aux_assertions = if multi { shape.aux.as_ref().map(|a| a.num_assertions()).unwrap_or(1).max(1) } else { 0 };
         let lagrange = if multi && shape.aux.as_ref().map(|a| a.lagrange).unwrap_or(false) {
             Some(trace_info.get_aux_segment_width().saturating_sub(1))
         } else {
@@ -457,9 +524,18 @@ impl<B: SimField> Air for SimAir<B> {
         }
     }
 
-    fn get_aux_assertions<E: FieldElement<BaseField = B>>(&self, _aux_rand_elements: &[E]) -> Vec<Assertion<E>> {
-        let plain = self.inputs.shape.aux.as_ref().map(|a| a.plain_cols()).unwrap_or(1).max(1);
-        (0..plain).map(|j| Assertion::single(j, 0, if j == 0 { E::ONE } else { E::ZERO })).collect()
+    fn get_aux_assertions<E: FieldElement<BaseField = B>>(&self, aux_rand_elements: &[E]) -> Vec<Assertion<E>> {
+        let Some(aux) = self.inputs.shape.aux.as_ref() else {
+            return vec![Assertion::single(0, 0, E::ONE)];
+        };
+        let plain = aux.plain_cols().max(1);
+        let mut out: Vec<Assertion<E>> =
+            (0..plain).filter(|j| aux.single_at_zero(*j)).map(|j| Assertion::single(j, 0, if j == 0 { E::ONE } else { E::ZERO })).collect();
+        for (a, sums) in aux.asserts.iter().zip(self.inputs.aux_sums.iter()) {
+            let r = if aux_rand_elements.is_empty() { E::ONE } else { aux_rand_elements[a.col % aux_rand_elements.len()] };
+            out.push(Assertion::sequence(a.col, a.first, a.stride, sums.iter().map(|s| r * E::from(*s)).collect()));
+        }
+        out
     }
 
     fn get_auxiliary_proof_verifier<E: FieldElement<BaseField = B>>(&self) -> SimGkrVerifier {
@@ -725,6 +801,18 @@ pub fn gen_shape(ch: &mut Chooser, lim: &GenLimits, max_blowup: usize) -> Shape 
             width: plain + lagrange as usize,
             num_rands: if lagrange && ch.chance("shape.norands?", 1, 3) { 0 } else { 1 + ch.index("shape.auxrands", 4) },
             lagrange,
+            asserts: if plain >= 2 && ch.chance("shape.auxassert?", 1, 2) {
+                // a sequence assertion on a running-sum column: n / stride values (both sides of
+                // the prover's 63-value switch when the trace is long enough), first step 0 (then
+                // it replaces the column's single assertion) or not
+                let col = 1 + ch.index("shape.auxassert.col", plain - 1);
+                let ls = 1 + ch.weighted("shape.auxassert.stridelog", &[3, 2, 2, 1, 1, 1, 1, 1, 1, 1][..(log_len as usize - 1).min(10)]);
+                let stride = 1usize << ls;
+                let first = if ch.chance("shape.auxassert.first0?", 1, 2) { 0 } else { 1 + ch.index("shape.auxassert.first", stride - 1) };
+                vec![AuxAssert { col, first, stride }]
+            } else {
+                vec![]
+            },
         })
     } else {
         None
@@ -734,6 +822,14 @@ pub fn gen_shape(ch: &mut Chooser, lim: &GenLimits, max_blowup: usize) -> Shape 
     let width = ch.biased("shape.width", 1, max_w as u64, &[1, 2, 3, 7, 8, 9, 16, 17, 64, 254, 255]) as usize;
     // keep wide traces short so that a run stays cheap
     let (log_len, n) = if width > 32 && log_len > 6 { (6, 64) } else { (log_len, n) };
+    // (an auxiliary sequence assertion drawn for the longer trace keeps at least two values)
+    let mut aux = aux;
+    if let Some(a) = aux.as_mut() {
+        for x in a.asserts.iter_mut() {
+            x.stride = x.stride.min(n / 2);
+            x.first %= x.stride;
+        }
+    }
 
     // periodic columns
     let np = ch.weighted("shape.nperiodic", &[5, 3, 2]);
@@ -941,6 +1037,16 @@ pub fn main_violations<B: StarkField>(inputs: &SimInputs<B>, rows: &[Vec<B>]) ->
             let v = if a.kind == AssertKind::Sequence { vals[j] } else { vals[0] };
             if rows[*s][a.col] != v {
                 bad.push((format!("assertion{k}"), *s));
+            }
+        }
+    }
+    // an auxiliary sequence assertion states partial sums of a main column: a main trace with
+    // other partial sums cannot be extended to a valid auxiliary segment
+    for (k, (sums, want)) in read_aux_sums(shape, rows).iter().zip(inputs.aux_sums.iter()).enumerate() {
+        let steps = shape.aux.as_ref().map(|a| a.asserts[k].steps(n)).unwrap_or_default();
+        for (j, (a, b)) in sums.iter().zip(want.iter()).enumerate() {
+            if a != b {
+                bad.push((format!("aux-assertion{k}"), steps[j]));
             }
         }
     }
